@@ -865,8 +865,17 @@ class Manager:
             elif isinstance(value, ExceptionWrapper):
                 self.unregisterTask((event, task, parent))
                 if parent:
+                    # The handler may catch the exception and go on; what
+                    # it yields next is dealt with like anything it yields.
                     value = parent.throw(value.extract())
-                    if value is not None:
+                    if isinstance(value, GeneratorType):
+                        # another call()/wait(): it takes the place of the
+                        # one that has just ended (see CallValue above)
+                        task_state = next(value)
+                        task_state.task_event = event
+                        task_state.task = value
+                        task_state.parent = parent
+                    else:
                         value_generator = (val for val in (value,))
                         self.registerTask((event, value_generator, parent))
                 else:
